@@ -471,8 +471,12 @@ class CodecSide:
 
 import re
 
-REQ_LINE = re.compile(rb"(GET|POST|HEAD|PUT|DELETE) ([^\x00-\x20\x7f]+) HTTP/1\.([01])", re.S)
+# request-target: non-empty, no SP, no CTL, and not beginning with "?" (the path is not empty)
+REQ_LINE = re.compile(rb"(GET|POST|HEAD|PUT|DELETE) ([^\x00-\x20\x7f?][^\x00-\x20\x7f]*) HTTP/1\.([01])", re.S)
+# the three relaxations below are NOT part of the reference: they only name the kind of a disagreement (the defects F19
+# that were repaired in /repo; if one of them comes back it is reported as a violation with that kind)
 REQ_LINE_EMPTY_TARGET = re.compile(rb"(GET|POST|HEAD|PUT|DELETE) () HTTP/1\.([01])", re.S)
+REQ_LINE_EMPTY_PATH = re.compile(rb"(GET|POST|HEAD|PUT|DELETE) (\?[^\x00-\x20\x7f]*) HTTP/1\.([01])", re.S)
 REQ_LINE_CTL = re.compile(rb"(GET|POST|HEAD|PUT|DELETE) ([^ ]+) HTTP/1\.([01])", re.S)
 C_SPACE = b" \t\n\v\f\r"
 
@@ -486,7 +490,8 @@ def req_text(method, ver, path, query, headers):
 
 def ref_http(stream, lenient=()):
     """reference decoding of a request stream, written from the HTTP/1.x grammar: request line =
-    METHOD SP request-target SP "HTTP/1." ("0"|"1") with a non-empty target free of SP and CTL; header lines
+    METHOD SP request-target SP "HTTP/1." ("0"|"1") with a non-empty target free of SP and CTL whose path (the part in
+    front of the first "?") is not empty; header lines
     `field: value` (value trimmed) up to the first line without a colon; lines end with CR LF.
     returns (events, left, dead, partial)"""
     evs, pos, n = [], 0, len(stream)
@@ -499,6 +504,8 @@ def ref_http(stream, lenient=()):
         m = REQ_LINE.fullmatch(line)
         if m is None and "empty-target" in lenient:
             m = REQ_LINE_EMPTY_TARGET.fullmatch(line)
+        if m is None and "empty-path" in lenient:
+            m = REQ_LINE_EMPTY_PATH.fullmatch(line)
         if m is None and "ctl" in lenient:
             m = REQ_LINE_CTL.fullmatch(line)
         if m is None:
@@ -572,6 +579,8 @@ class HttpSide:
                 continue
             if got == want(("empty-target",)):
                 kind = "http-empty-target-accepted"
+            elif got == want(("empty-path",)):
+                kind = "http-empty-path-accepted"
             elif got == want(("ctl",)) or got == want(("ctl", "empty-target")):
                 kind = "http-control-byte-in-target-accepted"
             else:
@@ -584,7 +593,7 @@ class HttpSide:
     # ---------------------------------------------------------------- generators
     METHODS = [b"GET", b"POST", b"HEAD", b"PUT", b"DELETE"]
     TARGETS = [b"/", b"/a", b"/index.html", b"/a/b/c", b"/x?y=1", b"/?", b"/a?b?c", b"*", b"http://h/p?q", b"/" + b"p" * 300,
-               b"/%20", b"/\xe4\xb8\xad", b"/a:b", b"?", b"?x", b"/;a=1"]
+               b"/%20", b"/\xe4\xb8\xad", b"/a:b", b"/;a=1", b"/\x80\xff", b"/~!$&'()*+,=@", b"a"]
     FIELDS = [b"Host", b"Connection", b"Accept", b"X", b"x", b"Content-Length", b"host", b"A-b", b"", b"Z" * 40]
     VALUES = [b"a", b"localhost:8000", b"close", b"Keep-Alive", b"", b"a b", b"a:b", b"*/*", b"v" * 200, b"\xff\x80"]
 
@@ -605,8 +614,10 @@ class HttpSide:
                  b"GET / HTTP/0.9", b"GET / HTTP/1.1x", b"GET / XHTTP/1.1", b"GET /", b"GET / ", b"GET", b"GET ", b"", b" ", b"  ",
                  b"/ GET HTTP/1.1", b"GET /a b HTTP/1.1", b"DELETE", b"PUT /x", b"HEAD / HTTP/1.1\r", b"\x00GET / HTTP/1.1",
                  b"GET / HTTP/1.\x00", b"POST / HTTP/1.\xb1", b"GET / HTTP\x001.1"]
+    # the lines the unrepaired parser accepted (F19): empty target, query without a path, control bytes in the target
     F19_LINES = [b"GET  HTTP/1.1", b"POST  HTTP/1.0", b"GET /\x01 HTTP/1.0", b"GET /a\x7fb HTTP/1.1", b"GET \x00 HTTP/1.1", b"PUT /\r HTTP/1.1",
-                 b"GET /\n HTTP/1.1", b"DELETE /a\tb HTTP/1.0"]
+                 b"GET /\n HTTP/1.1", b"DELETE /a\tb HTTP/1.0", b"GET ? HTTP/1.1", b"HEAD ?x HTTP/1.0", b"PUT ?? HTTP/1.1", b"GET /\x1f HTTP/1.1",
+                 b"GET \x7f HTTP/1.0", b"POST /a?b\x00c HTTP/1.1", b"GET ?\x01 HTTP/1.1"]
 
     def make_stream(self, rng, cls):
         if cls == "valid":
@@ -690,8 +701,12 @@ class Prop:
                   "concatenation (messages, first error, unconsumed bytes); encode/decode round trip under the explicit size "
                   "guard and the theorem for the excluded branch (F12); classification of malformed frames in the code's "
                   "order; a consumed frame's verdict depends on exactly its 4+len bytes; HTTP request line accepted iff it "
-                  "matches the stated acceptance set (partial w.r.t. the declarative HTTP spec: F19), HTTP segmentation "
-                  "invariance, only complete lines are consumed, termination under the stated precondition. Constants, guards, "
+                  "matches the declarative spec METHOD SP target SP HTTP/1.(0|1) with a non-empty, SP- and CTL-free target "
+                  "whose path is not empty (line_valid_iff, full strength since the repair of F19) and what an accepted line "
+                  "sets (line_valid_result); HTTP segmentation invariance (http_seg_invariant: the nested parseRequest/"
+                  "HttpServer driver equals the flattened line loop, then the generic theorem), only complete lines are "
+                  "consumed (only_complete_lines), termination under the stated precondition (http_terminates) and the "
+                  "non-termination outside it (parse_spins). Constants, guards, "
                   "offsets and decision trees of the models are re-extracted from /repo on every run; the loops and slicing are "
                   "tied by the differential run; zlib's Adler-32 and protobuf's verdicts are environment")
     level_note = ("Trusted: Lean kernel (axioms propext, Classical.choice, Quot.sound only), vlib/extract.py + vlib/gen/codec.py, "
@@ -712,7 +727,7 @@ class Prop:
         "hand-written Model/Stream.lean, Model/Codec.lean, Model/Http.lean for the loops, slicing, Adler-32, the pointer walk of "
         "processRequestLine, std::map; tied by the differential run (harness/codec_drv.cc, harness/http_drv.cc vs the Lean drivers)",
         "protobuf's ParseFromArray / serialisation (verdicts recorded from the real calls), zlib's adler32 (cross-checked against "
-        "the Lean Adler-32 on every generated frame), std::string, std::map, std::find, std::search, isspace",
+        "the Lean Adler-32 on every generated frame), std::string, std::map, std::find, std::find_if, std::search, isspace",
     ]
     assumptions = [
         "after the first error the stream is abandoned (the default error callback shuts the connection down; HttpServer answers 400 "
@@ -749,6 +764,8 @@ class Prop:
             return "codec-oversize:encoder-has-no-size-check:decoder-InvalidLength"
         if kind == "http-empty-target-accepted":
             return "http-request-line:empty-request-target-accepted"
+        if kind == "http-empty-path-accepted":
+            return "http-request-line:empty-path-accepted"
         if kind == "http-control-byte-in-target-accepted":
             return "http-request-line:control-byte-in-request-target-accepted"
         return kind
@@ -947,7 +964,7 @@ class Prop:
         for s in side.short_streams():
             if len(s) <= exh:
                 scs.append((side.scenario(s, segmentations(rng, s, [], exh, 0, count)), {"class": "short-exhaustive"}))
-        for s in (shortest, b"GET  HTTP/1.1\r\n\r\n"):
+        for s in (shortest, b"GET  HTTP/1.1\r\n\r\n", b"GET ? HTTP/1.0\r\n\r\n", b"GET /\x7f HTTP/1.0\r\n\r\n"):
             if quick or flavour != "dbg" or s is not shortest:
                 cs = list(small_cut_sets(len(s), 3))
                 count("seg:all-cut-sets-up-to-3", len(cs))
